@@ -220,10 +220,18 @@ def harvest(ctx, rep, f_de, f_sh):
         obj = L.Objective(ctx.rng.choice(["onemax", "minx", "neg", "weighted"]))   # sum x rewards leaving the box
         init = np.array([[la[j] + (ra[j] - la[j]) * ctx.rng.randint(0, 8) / 8 for j in range(dim)] for _ in range(pop)])
         F, CR = ctx.rng.choice([0.5, 1.0, 2.0]), ctx.rng.choice([0.0, 0.5, 1.0])
-        records, pops = [], []
+        records, pops, geno_batches = [], [], []
+        use_g2p = ctx.rng.random() < 0.4
+        elitism, minimization = ctx.rng.random() < 0.7, ctx.rng.random() < 0.4
+
+        def g2p(P):
+            # same shape, different values: a phenotype written back into the genotype population leaves the box
+            geno_batches.append(L.snap(P))
+            return np.asarray(P, dtype=np.float64) * 1000.0 + 7.0
         with L.log_mode():
             common = dict(iters=ctx.pick(5, 8), pop_size=pop, left_border=left, right_border=right, num_variables=dim,
-                          init_population=init.copy(), random_state=seed, minimization=False)
+                          init_population=init.copy(), random_state=seed, minimization=minimization, elitism=elitism,
+                          genotype_to_phenotype=g2p if use_g2p else None)
             if kind == "DE":
                 opt = DifferentialEvolution(obj, mutation=strat, F=F, CR=CR, **common)
             elif kind == "jDE":
@@ -247,9 +255,11 @@ def harvest(ctx, rep, f_de, f_sh):
             pops.append(L.snap(opt._population_g_i))
         rep.traces += 1
         rep.hist("harvest_kind", kind + (":" + strat if strat else ""))
-        cfg = dict(kind=kind, strategy=strat, seed=seed, dim=dim, pop=pop, left=la.tolist(), right=ra.tolist(), F=F, CR=CR, objective=obj.kind)
-        # every candidate handed to the objective, every population member
-        for X, _ in obj.batches:
+        rep.hist("harvest_g2p/elitism/min", (use_g2p, elitism, minimization))
+        cfg = dict(kind=kind, strategy=strat, seed=seed, dim=dim, pop=pop, left=la.tolist(), right=ra.tolist(), F=F, CR=CR, objective=obj.kind,
+                   g2p=use_g2p, elitism=elitism, minimization=minimization)
+        # every candidate handed to the objective (its genotype when a genotype_to_phenotype is configured), every population member
+        for X in (geno_batches if use_g2p else [b[0] for b in obj.batches]):
             for x in X:
                 rep.count("candidate", (seed, tuple(np.asarray(x).tolist())), nontrivial=False)
                 if not in_box(x, la, ra):
